@@ -283,6 +283,27 @@ impl<'a> Walk<'a> {
 
     /// Null move, its subtree (only when `recurse`), take back. Returns false if the game object is no longer usable.
     fn null_block(&mut self, g: &mut Game, r: &Pos, left: usize, last_was_null: bool, recurse: bool) -> bool {
+        // the draw verdicts of this node must not be disturbed by a null move that is made and taken back (the search
+        // does that at almost every node); the subtree below the null move is not judged (no game continues there)
+        if self.om.draws && !self.om.nulls && recurse && !last_was_null && !r.in_check(r.side) {
+            self.ops.push("null".into());
+            self.trace.push("null".into());
+            self.ops.push("undo-null".into());
+            self.trace.push("undo-null".into());
+            let ok = catch(|| {
+                g.make_null_move();
+                g.undo_null_move();
+            });
+            match ok {
+                Ok(()) => {
+                    bump(&mut self.c, "draws_rejudged_after_null");
+                    self.check_draws(g, r);
+                }
+                Err(e) => self.vio("null-move-panic", e),
+            }
+            self.ops.pop();
+            self.ops.pop();
+        }
         if self.om.nulls && !last_was_null && !r.in_check(r.side) {
             let before = mo::snapshot(g);
             self.edges += 1;
